@@ -738,6 +738,150 @@ def rule_merge(F, R, rule="R-C10-8"):
     R.check(ok, rule, "merge driver", mg.loc(), "a learner is dropped only after it was merged into another", "merge() drops learners that were not merged")
 
 
+def rule_bin_gain(F, R):
+    """R-C10-9: the per-bin gain by which accumulator_t::sort ranks the bins of the k-best / discrete-step tables is the RSS decrease of
+    fitting one constant per output to the bin: -sum_o r1_o^2 / x0 (evaluated with a 2-output residual sum (a, b), where the sum of squares and
+    the square of the sum differ), and the bins are ranked by ascending gain together with their index."""
+    fs = [f for f in F.functions.values() if f.qn == "nano::wlearner::accumulator_t::sort" and f.body is not None]
+    if not fs:
+        raise AnalysisBroken("wlearner::accumulator_t::sort not found")
+    f = fs[0]
+    a, b, n_ = sp.symbols("a b n", positive=True)
+
+    class Unknown(Exception):
+        pass
+
+    def vev(x, depth=0):
+        x = skip(x)
+        while x["k"] in ("cast", "paren") and x.get("c"):
+            x = skip(x["c"][0])
+        k = x["k"]
+        if k in ("int", "float"):
+            return sp.nsimplify(x["v"], rational=True)
+        if k == "ref" and depth < 4:
+            v, _ = find_var(f, x.get("d"))
+            if v is not None and v.get("c") and (v.get("t") or "").startswith("const "):
+                return vev(v["c"][0], depth + 1)
+            raise Unknown(pp(x))
+        if k == "un" and x.get("op") == "-":
+            r_ = vev(x["c"][0], depth)
+            return [-e for e in r_] if isinstance(r_, list) else -r_
+        if k in ("bin", "call") and x.get("op") in ("+", "-", "*", "/") and len(x.get("c", ())) == 2:
+            l_, r_ = vev(x["c"][0], depth), vev(x["c"][1], depth)
+            op = {"+": lambda p, q: p + q, "-": lambda p, q: p - q, "*": lambda p, q: p * q, "/": lambda p, q: p / q}[x["op"]]
+            if isinstance(l_, list) and isinstance(r_, list):
+                return [op(p, q) for p, q in zip(l_, r_)]
+            if isinstance(l_, list):
+                return [op(p, r_) for p in l_]
+            if isinstance(r_, list):
+                return [op(l_, q) for q in r_]
+            return op(l_, r_)
+        if k == "call" and x.get("ck") == "mem":
+            name = callee(x).split("::")[-1]
+            if name == "r1" and len(args(x)) == 1:
+                return [a, b]
+            if name == "x0" and len(args(x)) == 1:
+                return n_
+            o_ = vev(x["c"][0], depth)
+            if name in ("array", "vector", "matrix", "eval") and not args(x):
+                return o_
+            if name == "square" and not args(x):
+                return [e ** 2 for e in o_] if isinstance(o_, list) else o_ ** 2
+            if name in ("abs", "cwiseAbs") and not args(x):
+                return [sp.Abs(e) for e in o_] if isinstance(o_, list) else sp.Abs(o_)
+            if name == "sum" and not args(x):
+                return sum(o_) if isinstance(o_, list) else o_
+            if name == "squaredNorm" and not args(x):
+                return sum(e ** 2 for e in o_) if isinstance(o_, list) else o_ ** 2
+            if name == "dot" and len(args(x)) == 1:
+                r_ = vev(args(x)[0], depth)
+                return sum(p * q for p, q in zip(o_, r_))
+        raise Unknown(pp(x)[:60])
+    eb = [c for c in f.calls(lambda c: callee(c).split("::")[-1] in ("emplace_back", "push_back") and len(args(c)) >= 1)]
+    if len(eb) != 1:
+        R.incomplete("R-C10-9", "bin gain", f.loc(), "expected one emplace_back of (gain, bin)")
+        return
+    ar = args(eb[0])
+    if len(ar) == 1:
+        inner = skip(ar[0])
+        ar = [c_ for c_ in inner.get("c", ())] if inner["k"] in ("construct", "initlist", "call") else ar
+    try:
+        g_ = vev(ar[0])
+    except Unknown as e:
+        R.incomplete("R-C10-9", "bin gain", f.loc(eb[0]), "cannot evaluate `%s`" % e)
+        return
+    want = -(a ** 2 + b ** 2) / n_
+    ok = not isinstance(g_, list) and sp.simplify(g_ - want) == 0
+    R.check(ok, "R-C10-9", "bin gain", f.loc(eb[0]), "gain = -sum over outputs of r1^2 / x0", "with the residual sums (a, b) of two outputs the gain of a bin is %s, the RSS decrease of fitting a "
+            "constant per output is %s: bins are ranked (and the k-best score is computed) with a quantity that is not the RSS" % (g_, want))
+    srt = [c for c in f.calls(lambda c: callee(c) == "std::sort")]
+    okb = len(ar) >= 2 and skip(ar[1])["k"] == "ref" and len(srt) == 1 and len(args(srt[0])) == 2
+    R.check(okb, "R-C10-9", "bin ranking", f.loc(), "pairs (gain, bin) sorted ascending by gain", "the bins are no longer ranked by ascending gain with their own index")
+
+
+def rule_ranked_reads(F, R):
+    """R-C10-10: accumulator_t::sort returns one (gain, bin) pair per bin; score_kbest reads `mapping[kbest - 1]` for kbest = 1..max_kbest and
+    `mapping[fv]` for fv < kbest, so max_kbest must be bounded by the number of bins on every path (a categorical feature without a single
+    value in the sample subset has 0 bins - the discrete-step table asks for 1). The loop bound has to be `bins`, `min(.., bins)` or a variable
+    every assignment of which is one of those."""
+    fs = [f for f in F.functions.values() if f.name == "score_kbest" and f.relfile == "src/wlearner/table.cpp" and f.body is not None]
+    if not fs:
+        raise AnalysisBroken("cache_t::score_kbest not found")
+    f = fs[0]
+    mp = [v for v in f.nodes() if v["k"] == "var" and v.get("c") and callee(skip(v["c"][0])).endswith("accumulator_t::sort") if skip(v["c"][0])["k"] == "call"]
+    bn = [v for v in f.nodes() if v["k"] == "var" and v.get("c") and skip(v["c"][0])["k"] == "call" and callee(skip(v["c"][0])).endswith("::bins")]
+    if len(mp) != 1 or len(bn) != 1:
+        R.incomplete("R-C10-10", "score_kbest", f.loc(), "expected `mapping = sort()` and `bins = bins()`")
+        return
+    md, bd = mp[0]["d"], bn[0]["d"]
+
+    def bounded(n, depth=0):
+        """n <= bins on every path"""
+        n = skip(n)
+        while n["k"] in ("cast", "paren") and n.get("c"):
+            n = skip(n["c"][0])
+        if n["k"] == "ref" and n.get("d") == bd:
+            return True
+        if n["k"] == "call" and callee(n) in ("std::min",):
+            # one bounded operand suffices; look at the plain `bins` operand before following variables
+            ar = sorted(args(n), key=lambda a_: 0 if (skip(a_)["k"] == "ref" and skip(a_).get("d") == bd) else 1)
+            return any(bounded(a_, depth + 1) for a_ in ar) if depth < 4 else False
+        if n["k"] == "cond":
+            return bounded(n["c"][1], depth + 1) and bounded(n["c"][2], depth + 1)
+        if n["k"] == "ref" and depth < 4:
+            d_ = n.get("d")
+            defs = [assignment(x)[1] for x in f.nodes() if assignment(x) and assignment(x)[2] == "=" and ref_decl(assignment(x)[0]) == d_]
+            var, _ = find_var(f, d_)
+            if var is not None and var.get("c"):
+                defs.append(var["c"][0])
+            is_param = any(p_.get("d") == d_ for p_ in f.params)
+            if is_param and not defs:
+                return False
+            # a parameter re-assigned before use: all reaching definitions must be bounded (the parameter's own value only counts if it is never read
+            # unassigned, which the single unconditional assignment at the top guarantees when it dominates the loop)
+            if not defs or not all(bounded(d2, depth + 1) for d2 in defs):
+                return False
+            if not is_param:
+                return True
+            heads = [f.cfg.where_enclosing(l_["c"][l_["r"].index("cond")]) for l_ in loops]
+            return any(f.cfg.where_enclosing(x) is not None and all(h_ is not None and f.cfg.dominates(f.cfg.where_enclosing(x), h_) for h_ in heads)
+                       for x in f.nodes() if assignment(x) and ref_decl(assignment(x)[0]) == d_)
+        return False
+    loops = [x for x in f.nodes() if x["k"] == "for" and any(y["k"] == "call" and y.get("op") == "[]" and ref_decl(y["c"][0]) == md for y in walk(x))]
+    n = 0
+    for lp in loops[:1]:
+        cond = skip(lp["c"][lp["r"].index("cond")])
+        n += 1
+        ok, why = False, "loop condition `%s` not understood" % pp(cond)
+        if cond["k"] == "bin" and cond["op"] in ("<", "<="):
+            ub = cond["c"][1]
+            ok = bounded(ub)
+            why = "the loop runs kbest up to `%s`, which is not bounded by the number of bins on every path: with fewer bins than that (0 for a feature without any value in " \
+                  "the sample subset, and the discrete-step table asks for 1) `mapping[kbest - 1]` reads past the end of the ranking" % pp(ub)
+        R.check(ok, "R-C10-10", "score_kbest loop bound", f.loc(lp), "the number of selected bins never exceeds the number of bins", why)
+    R.floor("R-C10-10", n, 1, "ranked-bin loops")
+
+
 def run(ctx):
     R = ctx.report
     F = ctx.facts(TUS)
@@ -749,3 +893,5 @@ def run(ctx):
     rule_scale(F, R)
     rule_sorted_hashes(F, R)
     rule_merge(F, R)
+    rule_bin_gain(F, R)
+    rule_ranked_reads(F, R)
